@@ -61,8 +61,26 @@ DEVIATIONS: t.Dict[str, t.List[t.Any]] = {
     "dc.reply_reserved": [0xFF], "dc.header_sign": [False], "dc.isd_port": [1, 65535, 5000, 99, 135 * 0 + 1025], "dc.server_legs": [2, 3, 4],
     "dc.env_flags": ["alt"],  # the other spelling of the envelope flags: 0 instead of 2 (seed keys), 3 instead of 1 (public key)
     "dc.name_style": ["unicode"],  # domain / forest names with non-ASCII and non-BMP characters
-    "dc.forest": ["shorter", "longer"],  # a child domain / second tree: the forest name differs from the domain name (also in length)
+    "dc.forest": ["shorter", "longer"],
+    "dc.eph": ["zlead"],  # (client side, DH public-key mode) an ephemeral private key for which the shared secret Z = Y^x mod p begins with a zero octet  # a child domain / second tree: the forest name differs from the domain name (also in length)
 }
+
+
+_zlead: t.Dict[t.Any, bytes] = {}
+
+
+def zlead_private(rk, sd: bytes, now) -> bytes:
+    """octets for the ephemeral DH private key such that Y^x mod p has a leading zero octet (found by trying counter-mode candidates: 1 in 256)"""
+    k = (rk.rkid, sd, now)
+    if k not in _zlead:
+        kl, p_, g_, y_ = gkdi.unpack_dh_key(gkdi.server_envelope(rk, sd, now[0], now[1], now[2], authorised=False)[-1])
+        d = seams.Drbg(("C17zlead", str(rk.rkid), now))
+        while True:
+            xb = d.bytes(rk.priv_len // 8)
+            if pow(y_, int.from_bytes(xb, "big"), p_) >> (8 * (kl - 1)) == 0:
+                break
+        _zlead[k] = xb
+    return _zlead[k]
 
 
 def deviate(c: Cfg, dim: str, val: t.Any) -> Cfg:
@@ -91,6 +109,7 @@ def run_cfg(seed: int, c: Cfg):
         dom = ("d\u00f6m\U0001d521in.t\u00ebst" * 2)[: c.namelen]
     fst = shape.pop("forest", None)
     forest = dom if fst is None else (dom[len(dom) // 2 + 1 :] or "f") if fst == "shorter" else "root." + dom
+    eph = shape.pop("eph", None)
     if shape.pop("env_flags", None) == "alt":
         shape["envelope_override"] = lambda e: e._replace(flags={2: 0, 1: 3}.get(e.flags, e.flags))
     dc = refdc.DC([rk], now=now if c.op == "protect" else (L0, 31, 31), authorised=c.kind == "seed", domain=dom, forest=forest, sec=c.sec, sig_size=c.sig,
@@ -103,6 +122,8 @@ def run_cfg(seed: int, c: Cfg):
     user, pw = (secctx.NTLM_USER, secctx.NTLM_PASS) if c.sec == "ntlm" else ("u", "p")
     kw = dict(server="dc.verif.test", username=user, password=pw, auth_protocol="ntlm")
     ent = seams.Entropy(b"C17")
+    if eph == "zlead" and c.kind == "DH" and c.op == "protect":
+        ent.script_by_size[rk.priv_len // 8] = [zlead_private(rk, dtyp.target_sd(dtyp.parse_sid_string(sid)), now)]
     import contextlib
 
     def _client_ctx(u, p, **k):
